@@ -109,12 +109,14 @@ func (eng *Engine) planReplay(fr *Frame, fc *FuncCtx, o *Obligation, results []*
 		case "int", "bool":
 			v.terms = []*Term{t}
 		case "bytes":
+			o.small = append(o.small, bvCmp("bvule", SlLen(t), BVLit64(40, 64)))
 			v.terms = []*Term{SlLen(t), SlCap(t), SlArr(t)}
 			row := Select(h0, SlArr(t))
 			for k := 0; k < replayElems; k++ {
 				v.terms = append(v.terms, Select(row, bvBin("bvadd", SlOff(t), BVLit64(uint64(k), 64))))
 			}
 		case "string":
+			o.small = append(o.small, bvCmp("bvule", StrLen(t), BVLit64(40, 64)))
 			v.terms = []*Term{StrLen(t)}
 			for k := 0; k < replayElems; k++ {
 				v.terms = append(v.terms, Select(StrData(t), BVLit64(uint64(k), 64)))
